@@ -29,6 +29,7 @@ type Profile struct {
 	Overlap   bool // parts drawn from an interval grammar (overlapping, nested) instead of a tiling
 	MaxSteps  int
 	LongWaits bool // advance by 25 h and more
+	Concurrent bool // several requests served at the same time
 }
 
 type fileState struct {
@@ -242,6 +243,57 @@ func (s *Scenario) stepSend() bool {
 	return true
 }
 
+// stepConcurrent serves 2-3 requests at once; each takes the next unsent
+// parts, so parts of one file are typically received on several connections.
+func (s *Scenario) stepConcurrent() bool {
+	nconn := s.t.IntRange("connections", 2, 3)
+	var reqs [][]PartSpec
+	sameFile := false
+	seen := map[string]int{}
+	for c := 0; c < nconn; c++ {
+		var req []PartSpec
+		n := s.t.IntRange("connParts", 1, 2)
+		for i := 0; i < n; i++ {
+			var cand []*fileState
+			for _, fs := range s.files {
+				if len(fs.unsent) > 0 {
+					cand = append(cand, fs)
+				}
+			}
+			if len(cand) == 0 {
+				break
+			}
+			fs := cand[s.t.Pick("connFile", len(cand))]
+			idx := fs.unsent[0]
+			fs.unsent = fs.unsent[1:]
+			fs.sent = append(fs.sent, idx)
+			req = append(req, fs.parts[idx])
+			seen[fs.cur.Name]++
+		}
+		if len(req) > 0 {
+			reqs = append(reqs, req)
+		}
+	}
+	if len(reqs) < 2 {
+		for _, r := range reqs {
+			s.w.Request(r)
+		}
+		return len(reqs) > 0
+	}
+	for _, n := range seen {
+		if n > 1 {
+			sameFile = true
+		}
+	}
+	if sameFile {
+		s.t.Class("concurrent-parts-of-one-file")
+	}
+	s.t.Class("concurrent-requests")
+	s.t.Note("#%d %d concurrent requests", s.w.step+1, len(reqs))
+	s.w.RequestsConcurrent(reqs)
+	return true
+}
+
 func (s *Scenario) stepReuse() bool {
 	if !s.p.Reuse {
 		return false
@@ -325,7 +377,11 @@ func (s *Scenario) Run() {
 		if s.p.Overwrite {
 			wOver = 1
 		}
-		switch s.t.Weighted("action", 12, 3, 3, 2, 3, 2, wRestart, wClean, wReuse, wOver) {
+		wConc := 0
+		if s.p.Concurrent {
+			wConc = 6
+		}
+		switch s.t.Weighted("action", 12, 3, 3, 2, 3, 2, wRestart, wClean, wReuse, wOver, wConc) {
 		case 0:
 			s.stepSend()
 		case 1:
@@ -357,6 +413,8 @@ func (s *Scenario) Run() {
 			s.stepReuse()
 		case 9:
 			s.stepOverwrite()
+		case 10:
+			s.stepConcurrent()
 		}
 		s.observe()
 	}
